@@ -38,11 +38,13 @@ CHECKS = {
         "crate = independent KeyGen (Python, hashlib) on ~36 000 seeds per run, = model on a subset, scripted/recorded RNG, algebraic relation on decoded keys.",
    ref="DESIGN.md section 3 C04 and 12.2", technique="Coq proof (model KeyGen = specification) + differential execution vs independent KeyGen at volume"),
  "C05": dict(
-   text="PARTIAL proof + evaluation. Coq theorems: randomness enters only as the drawn bytes (rnd in rho''=H(K||rnd||mu) for ML-DSA, rho' itself for Dilithium), deterministic signing draws nothing, "
-        "buffer-independent, API signs the framed M', mask = ExpandMask(rho'', L*kappa+i), attempts run in counter order and the first one passing the four tests in the specification's order is "
-        "returned. Identification of the NTT-domain intermediates with Sign_internal's ring expressions is not yet a theorem: decided by executing crate = independent Sign_internal on the "
-        "message-length/context/mode grid, scripted randomness, crafted secret keys forcing rare rejection causes; = model on cheap cases.",
-   ref="DESIGN.md section 3 C05", technique="Coq proofs of the structure (partial) + differential execution vs independent Sign_internal"),
+   text="Coq theorem (six sets, every key whose decoded s2 is within +-eta - every key from key generation -, every message, context, pre-hash, mode): whenever signing returns, it returns "
+        "byte for byte the signature of the specification's Sign (Dilithium 3.1 / FIPS 204 Alg. 7, transcribed in PSignSpec.v with the attempt counter explicit) for the bytes drawn: none "
+        "(deterministic), 32 as rnd in rho''=H(K||rnd||mu) (hedged ML-DSA), 64 as rho' (randomized Dilithium); the specification's signature is unique; API wrappers = specification on "
+        "the framed M'. Includes the equivalence of the code's tests with the specification's (low-bits lemma with ||c s2|| <= beta, centred norms, MakeHint). Not provable: termination. "
+        "Tied to the code by executing crate = independent Sign_internal on the message-length/context/mode grid, scripted randomness, crafted secret keys forcing rare rejection causes; = "
+        "model on cheap cases.",
+   ref="DESIGN.md section 3 C05 and 12.2", technique="Coq proof (model Sign = specification) + differential execution vs independent Sign_internal"),
  "C06": dict(
    text="Coq theorems (all keys bytes, messages, modes, tapes, fuel): whatever the model's signer returns is the packing of (z, h) of an attempt that passed all four tests on the signer's "
         "intermediates, hence ||z|| < gamma1-beta, h a 0/1 vector of weight <= omega, low-bits vector < gamma2-beta, c*t0 vector < gamma2; rejected attempts were rejected for a stated reason. "
